@@ -191,12 +191,14 @@ fn locate(mode: Mode, src: &str) -> String {
             let lin = guard(|| {
                 let mut l = LinearLocator::new(src);
                 let le: LocatedError<()> = l.locate_error(mk());
+                check_python_location(&le);
                 le.location
             });
             verif_trace::drain();
             let rnd = guard(|| {
                 let mut l = RandomLocator::new(src);
                 let le: LocatedError<()> = l.locate_error(mk());
+                check_python_location(&le);
                 le.location
             });
             let f = |x: Option<Option<SourceLocation>>| opt(x.flatten(), show_loc);
@@ -428,6 +430,7 @@ fn locseq(text: &str, ops: &[&str]) -> String {
             "o" => guard(|| lin.locate_only(o)),
             "e" => guard(|| {
                 let le: LocatedError<()> = lin.locate_error(mk());
+                check_python_location(&le);
                 le.location.unwrap()
             }),
             _ => return "bad-request".into(),
@@ -436,6 +439,7 @@ fn locseq(text: &str, ops: &[&str]) -> String {
         let r2 = match k {
             "e" => guard(|| {
                 let le: LocatedError<()> = rnd.locate_error(mk());
+                check_python_location(&le);
                 le.location.unwrap()
             }),
             _ => guard(|| rnd.locate(o)),
@@ -510,6 +514,21 @@ fn handle(ws: &[&str]) -> String {
         ["flavour"] => flavour().to_string(),
         _ => bad(),
     }
+}
+
+/// `LocatedError::python_location` is the attached location as plain numbers, `(0, 0)` without one (a panic here is
+/// caught by `guard` and answered as a failed call, so a deviation is reported against the reference position).
+fn check_python_location(le: &LocatedError<()>) {
+    let want = le
+        .location
+        .map_or((0, 0), |l| (l.row.to_usize(), l.column.to_usize()));
+    assert_eq!(le.python_location(), want, "python_location");
+    let none: LocatedError<()> = LocatedError {
+        error: (),
+        location: None,
+        source_path: String::new(),
+    };
+    assert_eq!(none.python_location(), (0, 0), "python_location without a location");
 }
 
 fn main() {
